@@ -26,7 +26,7 @@ class Workdir:
     """Scratch copy of the harness crates + own target dir; removed on exit."""
 
     def __init__(self, tag):
-        self.path = os.path.join(VERIF, ".work", "%s-%d" % (tag, os.getpid()))
+        self.path = os.path.join(os.environ.get("VERIF_WORK", os.path.join(VERIF, ".work")), "%s-%d" % (tag, os.getpid()))
         shutil.rmtree(self.path, ignore_errors=True)
         os.makedirs(self.path)
 
@@ -66,6 +66,9 @@ def codegen(wd, crate, features=(), rustflags="", harness_filters=None, cfg_miri
     lock = os.path.join(REPO, "Cargo.lock")
     if os.path.exists(lock):
         shutil.copy(lock, os.path.join(dst, "Cargo.lock"))
+    if REPO != "/repo":
+        ct = os.path.join(dst, "Cargo.toml")
+        open(ct, "w").write(open(ct).read().replace('path = "/repo"', 'path = "%s"' % REPO))
     tdir = os.path.join(wd.path, label, "target")
     env = dict(os.environ)
     env["CARGO_NET_OFFLINE"] = "true"
